@@ -32,7 +32,7 @@ const (
 func runFilterConc(cfg Cfg) {
 	s := NewStream(cfg.Out, "filterconc")
 	defer s.Close()
-	s.Rule = "W writers churn disjoint ranges (each adds/removes only prefixes inside its own /8 block), in total more ranges than the list holds so the switch happens while R readers probe always-present addresses (must be true), never-present addresses (must be false unless 0.0.0.0/0 may be present) and churned addresses; one writer toggles 0.0.0.0/0; final membership = per-writer sequential prefix set; non-trivial = a probe of an always-present or never-present address (distinct by (kind, address, state of /0))"
+	s.Rule = "W writers churn disjoint ranges (each adds/removes only prefixes inside its own /8 block), in total more ranges than the list holds so the switch happens while R readers probe always-present addresses (must be true), never-present addresses (must be false unless 0.0.0.0/0 may be present) and churned addresses; one writer toggles 0.0.0.0/0; every third run in three waves (grow, all writers remove everything they own and meet at a barrier, grow again); final membership = per-writer sequential prefix set; non-trivial = a probe of an always-present or never-present address (distinct by (kind, address, state of /0))"
 	rng := NewRng(cfg.Seed)
 	runs := cfg.N(3, 30)
 	W, R := cfg.N(4, 16), cfg.N(4, 16)
@@ -41,7 +41,15 @@ func runFilterConc(cfg Cfg) {
 		s.Line("reset", "ok")
 		// always-present ranges: 200.k.0.0/16, added up front
 		var always []uint32
-		for k := 0; k < 40; k++ {
+		// every third run has three waves: grow, shrink to (almost) nothing - all writers meet at a
+		// barrier when they own nothing any more -, grow again: a filter may have several lives
+		waves := run%3 == 2
+		nAlways := 40
+		if waves {
+			nAlways = 6
+		}
+		var emptied atomic.Int32
+		for k := 0; k < nAlways; k++ {
 			a := uint32(200)<<24 | uint32(k)<<16
 			f.Add(&net.IPNet{IP: ip4(a), Mask: net.CIDRMask(16, 32)})
 			s.Line("add "+hx(ip4(a))+" "+hx(net.CIDRMask(16, 32)), "nil "+filterBrief(f))
@@ -87,6 +95,18 @@ func runFilterConc(cfg Cfg) {
 						zeroState.Store(zeroAbsent)
 						zeroEpoch.Add(1)
 						continue
+					}
+					if waves && i == perWriter/2 {
+						for k := range own {
+							f.Remove(&net.IPNet{IP: ip4(k.net), Mask: net.CIDRMask(k.ones, 32)})
+							logs[w] = append(logs[w], wop{false, k.net, k.ones})
+							delete(own, k)
+						}
+						mine = mine[:0]
+						emptied.Add(1)
+						for spin := 0; emptied.Load() < int32(W) && spin < 200000; spin++ {
+							runtime.Gosched()
+						}
 					}
 					if i%3 == 1 {
 						// hot address of this writer's block: toggle a range covering it and check, as the only
@@ -203,6 +223,9 @@ func runFilterConc(cfg Cfg) {
 			}
 		}
 		st := f.VerifState()
+		if waves {
+			s.Count("run.three-waves")
+		}
 		if !st.MapsMode {
 			s.Count("run.list-only")
 		} else {
